@@ -38,7 +38,7 @@ RULE = ('case = one scenario in the three in-process modes, or one live batch (m
         'running the corpus; non-trivial = every case; distinct = scenario x mode configuration')
 ASSUMPTIONS = ['origins behave deterministically (scripted by request path)']
 SHARDS = {'quick': 8, 'thorough': 16}
-BUDGET_S = {'quick': 50, 'thorough': 900}
+BUDGET_S = {'quick': 150, 'thorough': 900}
 
 _static: Dict[str, str] = {}
 _ref: Dict[str, Any] = {}
@@ -121,6 +121,10 @@ def scenarios(hp: bytes, refused: bytes, hp2: bytes = b'h2:2') -> Dict[str, Any]
     S['followup-bad-then-more'] = lambda cv: [('send', get(b'/b3', cv)), ('responses', 1, [b'GET']),
                                               ('send', b'POST http://%s/bad HTTP/1.1\r\nHost: %s\r\nX-Conv: %s\r\nContent-Length: abc\r\n\r\n' % (hp, hp, cv)),
                                               ('advance', 3), ('send', get(b'/b4', cv)), ('eof',)]
+    S['fwd-close-delimited-large'] = lambda cv: [('send', get(b'/close-delimited-large', cv)), ('eof',)]
+    S['reverse-upstream-hangs-up-then-followup'] = lambda cv: [('send', b'GET /ra/h1 HTTP/1.1\r\nHost: r.test\r\nX-Conv: %s\r\nX-Behave: close-after\r\n\r\n' % cv),
+                                                               ('responses', 1, [b'GET']), ('advance', 5),
+                                                               ('send', b'GET /ra/h2 HTTP/1.1\r\nHost: r.test\r\nX-Conv: %s\r\n\r\n' % cv), ('eof',)]
     S['client-reset-mid-request'] = lambda cv: [('send', get(b'/never-sent', cv)[:30]), ('advance', 5), ('reset',)]
     S['client-closes-while-origin-silent'] = lambda cv: [('send', get(b'/never', cv)), ('origin-sees', cv), ('advance', 5), ('close',)]
     return S
@@ -583,7 +587,7 @@ def cases(tier: str, seed: int):
 
 def floors(tier: str) -> Dict[str, int]:
     return {'transcripts_equal': 150, 'live_transcripts_equal': 100, 'live_batches': 5, 'mode:step-remote': 20, 'mode:thread': 20,
-            'mode:live-threaded': 1, 'mode:live-local': 1, 'mode:live-remote': 1, 'distinct:scenarios': 27,
+            'mode:live-threaded': 1, 'mode:live-local': 1, 'mode:live-remote': 1, 'distinct:scenarios': 29,
             'tls_front_transcripts_equal': 8, 'storm_batches': 4, 'storm_connections_served': 1500}
 
 
